@@ -25,6 +25,9 @@ for patch in sys.argv[2:]:
             if m and os.path.exists(os.path.join(m.group(1), c + ".log")):
                 detail[c] = open(os.path.join(m.group(1), c + ".log"), errors="replace").read()[-1500:]
         res[patch] = dict(checks=len(lines), alarms=[l.split()[0] for l in bad], lines=bad, detail=detail)
+        if m:
+            import shutil
+            shutil.rmtree(m.group(1), ignore_errors=True)        # the kept logs have been read: leave nothing under /tmp
     finally:
         sh("git checkout -- . && git clean -fdq", REPO)
     json.dump(res, open(out, "w"), indent=1)
